@@ -159,6 +159,37 @@ PLANS['C08']['quick'] = PLANS['C08']['quick'] + [parse_run('tok5fail', 'tok', 5,
 PLANS['C08']['thorough'] = PLANS['C08']['thorough'] + [parse_run('tok7fail', 'tok', 7, 1000, failinject=True), parse_run('str2fail', 'str', 2, 1000, failinject=True),
                                                        print_run('printTfail', 'thorough', failinject=True), print_run('printQfailasan', 'quick', flavour='asan', failinject=True)]
 PLANS['C08']['rule'] = TREE_RULE + '; plus every parse of the token universe and every print of the print universe with each single allocation request refused in turn (both allocator configurations for printing)'
+# ------------------------------------------------------------------------------------------------ minify
+def min_run(name, U, maxlen):
+    return {'name': name, 'module': 'MC_Minify', 'mode': 'minify', 'view': 'View', 'invariants': ['InvCase'],
+            'constants': {'U': '"%s"' % U, 'MaxLen': maxlen, 'Emit': 'TRUE', 'MaxDepth': 1000}, 'timeout': 3000}
+PLANS['C13'] = {
+    'quick': [min_run('bytes6', 'bytes', 6), min_run('tok4', 'tok', 4)],
+    'thorough': [min_run('bytes8', 'bytes', 8), min_run('tok5', 'tok', 5)],
+    'rule': 'ALL strings up to the length bound over {space, newline, /, *, quote, backslash, a} (safety, and value preservation where the string is JSON with comments) and all sequences of tokens '
+            '(brackets, comma, number, string literals with escaped quote / escaped backslash / blank / comment opener inside, comment openers and closers incl. /*/); non-trivial = every case; distinct by construction',
+    'assumptions': ['accesses beyond the terminator are observed by placing the terminator on the last accessible byte; writes before the buffer by a canary area'],
+    'technique': 'TLC runs the transcribed Minify machine on every string of the universe (indexed reads, progress measure) and checks it against the declarative "remove comments and whitespace outside strings" for JSON-with-comments inputs; every case replayed in place on a guard-page buffer',
+    'level_text': 'Safety is quantified over all zero-terminated strings: TLC enumerates all strings over the bytes that steer the algorithm up to a length bound, with every read of the transcription index-checked and a progress bound; for inputs that are JSON with comments the result must equal the declarative minified form (which TLC also proves to parse to the same value and to be a fixed point). The real function runs on each string with the terminator as last accessible byte.',
+    'level_note': 'bounded length (6 quick / 8 thorough bytes; 4/5 tokens); L1 only constrains inputs that are JSON with comments, other outputs are compared with the transcription and counted as drift',
+}
+# ------------------------------------------------------------------------------------------------ hooks
+PLANS['C14'] = {
+    'quick': [{'name': 'hooks', 'module': 'Hooks', 'mode': 'hooks', 'invariants': ['NoLibc', 'ReallocOnlyDefault', 'Counterpart', 'Routed', 'Restores'],
+               'constants': {'MaxHeld': 2, 'Emit': 'TRUE'}, 'timeout': 600},
+              print_run('printQ14', 'quick', failinject=True)],
+    'thorough': [{'name': 'hooks', 'module': 'Hooks', 'mode': 'hooks', 'invariants': ['NoLibc', 'ReallocOnlyDefault', 'Counterpart', 'Routed', 'Restores'],
+                  'constants': {'MaxHeld': 3, 'Emit': 'TRUE'}, 'timeout': 600},
+                 print_run('printT14', 'thorough', failinject=True), tree('O3h', 3, 1, 2, '{1}', 'O', 'O')],
+    'rule': 'every transition of Hooks.tla: hook configuration (default / both custom / only malloc / only free / struct with NULL members / NULL) x call class '
+            '(tree-building and editing incl. all utilities, printing with buffer growth and trimming, values held across calls, release) ; plus the print universe with every allocation request refused; '
+            'non-trivial = the call makes allocator requests; distinct by construction',
+    'assumptions': ['direct uses of malloc/free/realloc by library code are made visible by renaming the undefined symbols of the library objects (objcopy), no source change',
+                    'hooks are exchanged only while the library holds no memory (documented condition)'],
+    'technique': 'TLC explores Hooks.tla (InitHooks selection logic x call classes x held objects) with routing invariants; each transition replayed with tagging user hooks and redirected libc symbols, every request attributed to one of them',
+    'level_text': 'C14 quantifies over histories x configurations: the specification makes every library call a bag of allocator events routed through the hook triple that InitHooks selects, TLC checks the routing invariants in all reachable states, and the real library is driven through every transition while each malloc/free/realloc it issues is attributed either to the installed user functions or to the C library entry points.',
+    'level_note': 'call classes are representative bundles of API calls (every allocating code path of cJSON.c and cJSON_Utils.c is in one of them); TLC and the driver are trusted',
+}
 NOT_CLAIMED = {}
 
 
